@@ -1121,9 +1121,9 @@ def cs_cases(seed, n, prefix="cs"):
             else:
                 ops.append("STATS " + Sn)
                 occ = 0
-        # epilogue: as many rounds of (runtime runs; every consumer polled) as there are consumers and one more,
-        # so that a chain of hand-offs can reach each of them; then the state
-        for _ in range(len(live) + 1):
+        # epilogue: 2n+3 rounds of (runtime runs; every consumer polled) for n consumers, so that a chain of
+        # hand-offs can reach each of them (a stream needs two rounds per batch); then the state
+        for _ in range(2 * len(live) + 3):
             ops += ["XT"] + ["XQ %d" % c for c in live]
         ops += ["STATS " + Sn]
         cases.append(("%s%d" % (prefix, i), ops))
